@@ -150,6 +150,51 @@ reg(
     "DESIGN.md section 4 C14",
 )
 
+reg(
+    "C01",
+    "TLA+ R-spec of the MBI format as a region algebra (Mbi.tla): every mixin name of the device database (read at run time, every chip revision and predecessor "
+    "name) is given its format meaning; image = sequence of regions, the four ROM-owned words = record, the reader's cuts derived from the words; TLC model-checks "
+    "HeaderDescribes / RoundTrip / ReadsBack / ReExport for every composition x abstract input and prints every case (MbiMC); each case is concretised and driven "
+    "through load_from_config and the class constructor; length, decoded words, CRC, certificate-header / TrustZone / key-store / IV / relocation-table / manifest "
+    "positions, parsed fields and the diff ranges of both re-export routes are recorded and decided event by event by TLC (MbiTrace, total verdicts)",
+    "Model checking of the format algebra for 47 of 51 compositions x input classes (22k states quick / 150k thorough) plus conformance of real builds: quick ~1050 "
+    "images in a seeded sample covering every value of every field per composition, thorough 24000 images on all 696 (family name, revision, target, authentication) "
+    "entries of the database.",
+    "Trusted: TLC, struct-level decoding and byte search in harness/c01.py, the CRC and certificate-block length formulas in lib/mbi_build.py, hashlib. Not modelled: "
+    "the four compositions without a vector table (DSC / MCXC), HMAC compositions with payloads 0x38-0x3F, crypto content (C02). Design-level parser limitations "
+    "(relocation-table detection, class selection by image type word, displaced custom TrustZone of v1+HMAC images) are registered as known findings.",
+    "DESIGN.md section 4 C01",
+)
+
+reg(
+    "C04",
+    "Explicit TLA+ R-spec of the SB 2.0/2.1 boot-ROM acceptance automaton (Sb2Rom.tla: block cursor = CTR counter offset, header MAC, RFC 3394 key blob, "
+    "certificate block, signature with optional SHA-256, per-section tag / tag HMAC / HMAC table over ciphertext chunks, commands with checksum and CRC, coverage "
+    "bookkeeping); TLC model-checks it against an ideal writer over every small layout shape (Complete, Sound, Tamper, FreshChunks, deadlock freedom) and enumerates "
+    "the shapes; Python concretises them, builds files through BootImageV20 / BootImageV21 / BootSectionV2 / Cmd*, walks them with an independent executor and "
+    "projects parse() results; TLC decides every trace in batch trace validation",
+    "model checking (110k states quick, 2.1M thorough, 95k shapes) + 3.3k (thorough 67k) validated traces: clean, single-bit-tampered, forged-command and wrong-KEK "
+    "observations from two observers (independent ROM executor, SPSDK's own parser); 14 elftosb goldens anchor the automaton at every start.",
+    "Trusted: TLC, hashlib, hmac, a pure-Python CRC-32/MPEG-2 and cryptography primitives called directly (AES-ECB block, RFC 3394 unwrap, X.509 DER, RSA PKCS#1 v1.5); "
+    "nothing from spsdk.crypto or spsdk.sbfile. Field values, keys and load contents are sampled. BootImageV21.parse returning only the first section is a registered "
+    "known finding (design-level).",
+    "DESIGN.md section 4 C04",
+)
+
+reg(
+    "C09",
+    "Explicit TLA+ R-spec (CipherModes.tla) defining all modes, MACs, KDFs and SPSDK derivations over one block primitive and one hash primitive, a bit-serial CRC "
+    "from catalogue parameters (Crc.tla) and the block counter as a limb-arithmetic state machine (Counter.tla); TLC proves the inversion, padding, positioning and "
+    "refusal lemmas with toy primitives and the CRC check / residue values, enumerates the wrapper case space (WrapperApi) and the counter behaviours; the cases are "
+    "replayed on the real code and TLC decides every observation by trace validation (ApiTrace, CounterTrace) from the table of primitive evaluations",
+    "Lemmas, counter invariants (Exact, Shape, PrefixFrozen, wrap reachable) and the abstract case space are exhaustive for small constants; every real call and "
+    "every counter step (15.5k traces quick, 248k thorough) is validated by TLC against values it recomputes from the R-spec.",
+    "Trusted: one-block AES (cryptography ECB on 16 bytes), a pure-Python SM4, hashlib, TLC, the published vectors (RFC 3394, SP 800-38A, RFC 4493, RFC 3610, "
+    "IEEE 1619, RFC 4231, RFC 5869) and two frozen repository artefacts. Messages over 256 bytes are compared with the reference constructions, which the spec binds on "
+    "every short case. Behaviour the docstrings leave undefined (ragged ECB input, XTS < 16 bytes ...) is not asserted.",
+    "DESIGN.md section 4 C09",
+)
+
 NOT_YET = {
 }
 
